@@ -14,6 +14,16 @@ PROPS = {
             "'terminated' = the executor-level end of the actor's task (taskDone / taskPanic / cancel)",
         ],
     },
+    "C15": {
+        "modules": ["Hannibal.Props.C15", "Hannibal.Props.C15Current"],
+        "theorems": ["Hannibal.C15_holds", "Hannibal.C15_current", "Hannibal.wellWired15_current"],
+        "cases": {"quick": {"C15": 1200, "C05": 300}, "thorough": {"C15": 15000, "C05": 5000, "C07": 3000}},
+        "assumptions": COMMON_ASSUMPTIONS + [
+            "interval_with timers: judged by monC15iw on real traces only (not part of the theorem)",
+            "'conversions never change which actor is addressed' is structural in the single-actor model (one "
+            "handle table per actor); it is observed on traces through the actor id carried by every reply",
+        ],
+    },
     "C12": {
         "modules": ["Hannibal.Props.C12"],
         "theorems": ["Hannibal.C12_holds", "Hannibal.C12_current", "Hannibal.C12_state",
